@@ -508,6 +508,12 @@ Proof.
   induction blocks as [|[n c] r IH]; intro m; cbn [store_elements]; [discriminate|].
   pose proof (add_tag_delta_total n c m). destruct (add_tag_delta true n c m); cbn [res_bind]; [apply IH|discriminate|congruence].
 Qed.
+Lemma post_elements_total blocks : post_elements true blocks <> Panic.
+Proof. unfold post_elements. destruct (_ && _); [discriminate|apply store_elements_total]. Qed.
+(* a post with two elements at one position, or an element repeating a tag, is rejected *)
+Lemma post_elements_invalid blocks :
+  elements_valid (List.concat (map fst blocks)) = false -> post_elements true blocks = Err.
+Proof. intro H. unfold post_elements. rewrite H. reflexivity. Qed.
 
 (* ---- indices ---- *)
 Lemma put_index_other st i k : k <> [pi_label i] -> sget (put_index st i) k = sget st k.
@@ -556,7 +562,7 @@ Proof.
     + right; reflexivity.
   - unfold handle_indices. destruct dec; [apply put_indices_harmless|right; reflexivity].
   - unfold handle_mappings. destruct dec as [ops ok]. destruct ok; cbn; [left|right]; reflexivity.
-  - pose proof (store_elements_total blocks []). destruct (store_elements true blocks []); cbn; [left|right|]; congruence.
+  - pose proof (post_elements_total blocks). destruct (post_elements true blocks); cbn; [left|right|]; congruence.
   - unfold handle_roi, put_spans. destruct dec; [|right; reflexivity]. destruct (forallb _ _); cbn; [left|right]; reflexivity.
   - left; reflexivity.
   - unfold handle_nj. destruct key_is_number; cbn; [|right; reflexivity]. destruct dec; [left|right]; reflexivity.
@@ -577,7 +583,7 @@ Proof.
   - unfold handle_indices in E. destruct dec as [l|]; [|inversion E; reflexivity]. eapply put_indices_frame; eauto.
   - unfold handle_mappings in E. destruct dec as [ops ok].
     destruct (negb ok && fx); [inversion E; reflexivity|]. inversion E; subst. apply put_mappings_frame. exact Hk.
-  - unfold of_res in E. destruct (store_elements fx blocks []); inversion E; reflexivity.
+  - unfold of_res in E. destruct (post_elements fx blocks); inversion E; reflexivity.
   - unfold handle_roi, put_spans in E. destruct dec as [spans|]; [|inversion E; reflexivity].
     cbn in Hk. assert (roi_key <> k) by tauto.
     destruct (forallb span_ok spans); [inversion E; subst; now apply sget_sput_other|].
@@ -597,7 +603,7 @@ Proof.
     + destruct (negb _); inversion E; reflexivity.
     + inversion E; reflexivity.
   - unfold handle_mappings in E. destruct dec as [ops ok]. destruct ok; cbn in E; inversion E; reflexivity.
-  - unfold of_res in E. destruct (store_elements true blocks []); inversion E; reflexivity.
+  - unfold of_res in E. destruct (post_elements true blocks); inversion E; reflexivity.
   - unfold handle_roi, put_spans in E. destruct dec; [|inversion E; reflexivity].
     destruct (forallb _ _); inversion E; reflexivity.
   - unfold handle_nj in E. destruct (negb key_is_number); [inversion E; reflexivity|]. destruct dec; inversion E; reflexivity.
